@@ -54,8 +54,9 @@ Proved:
 NOT proved (statement kept here; the judge evaluates it at run time on every trace of the correspondence stream):
 
 * `broadcast_hist` — `∀ cfg w0 ops, bcPre cfg w0 ops = true →
-     specBC cfg w0 (zipOps ops (runOps cfg (init w0) ops).1) = true`.  Missing: only the assembly (every clause of `judge1`,
-  full delivery included, is one of the theorems of this file).  The driver evaluates `specBC` on the model's own
+     specBC cfg w0 (zipOps ops (runOps cfg (init w0) ops).1) = true`.  Missing: only the assembly over the six kinds of
+  call (every clause of `judge1`, full delivery included, is one of the theorems of this file; the `step` entry is
+  assembled: `broadcast_hist_step_partial`).  The driver evaluates `specBC` on the model's own
   exact run of every request (reply field `specOnModel`): a `0` there is reported as a broken obligation.
 -/
 namespace Abmarl
@@ -161,6 +162,16 @@ theorem broadcast_delivery_step (cfg : BC.Cfg) (w0 : World) (s s' : BC.St) (hG :
     (hH : BC.cfgHypb cfg s.w = true) (acts : List (Aid × BC.Act)) (h : BC.step cfg s acts = .ok s') :
     ∃ rv, s.recv = some rv ∧ s'.recv = some (BC.recvAfter cfg s.w s.msgs acts rv) ∧ s'.msgs = s.msgs :=
   BC.step_recv hG hH h
+
+/-- **the `step` entry of the judge holds on the model's own run** (`broadcast_hist` for one `step`): in a state of the
+invariant, on a configuration satisfying `cfgHypb`, for items for agents of the simulation with moves of the declared
+spaces and ANY `broadcast` values, the clause `BC.judge1` of the judge for the call `step` — world invariant, frame,
+everybody active, messages unchanged, `receiving_state` equal to `BC.recvAfter`, reward keys kept; and if the call raised,
+then the "must not raise" precondition failed — is true of the entry the model produces -/
+theorem broadcast_hist_step_partial (cfg : BC.Cfg) (w0 : World) (hcfg : CfgOK w0) (s : BC.St) (hG : BC.Good cfg w0 s)
+    (hH : BC.cfgHypb cfg s.w = true) (acts : List (Aid × BC.Act)) (t : Tape) (hA : BC.ActsOK w0 acts) (res0 : BC.BRes) :
+    BC.judge1 cfg w0 (BC.see res0 s) (.step acts t) (BC.runOp cfg s (.step acts t)).1 = true :=
+  BC.judge1_step hcfg hG hH acts t hA res0
 
 /-! ## C08 -/
 
